@@ -90,6 +90,7 @@ type Obs struct {
 	Scan    map[string][]SideRec
 	Calls   map[string]int
 	Counter int64 // UserCalls.Value(Result.Scope())
+	Fires   int   // how often an injected failure point fired during this run
 	Wall    float64
 }
 
@@ -227,6 +228,7 @@ func RunOnce(sess *Sess, p Prog, cacheDir string, timeout time.Duration) (o Obs,
 		o.Counter = UserCalls.Value(r.res.Scope())
 		res = r.res
 	}
+	o.Fires = Fires(run)
 	rec.mu.Lock()
 	o.Writer, o.Scan = sideMap(rec.Writer), sideMap(rec.Scan)
 	o.Calls = map[string]int{}
